@@ -48,6 +48,12 @@ struct WorldStd : IWorld
         upper = (w.variant & 4) != 0;
         if (sparse) As = to_sparse(Ad);
     }
+    // symmetric / Hermitian wrappers reference one triangle only: what they are given has the other one scribbled
+    void one_triangle()
+    {
+        Ad = one_triangle_storage<S>(Ad, upper, triangle_mode(spec, 0));
+        if (sparse) As = to_sparse(Ad);
+    }
     // view sharing the owner's product wrapper (matrices are not regenerated; the owner keeps them alive)
     struct ShareTag {};
     WorldStd(const WorldStd& owner, const WorldSpec& w, ShareTag)
@@ -77,6 +83,7 @@ struct WorldSym : WorldStd<S>
     std::unique_ptr<IKrylov> make_krylov() override { return std::unique_ptr<IKrylov>(new LanczosDriver<S, SimOp<S>, Spectra::IdentityBOp>(*box.op, Spectra::IdentityBOp(), (long) spec.ncv)); }
     explicit WorldSym(const WorldSpec& w) : WorldStd<S>(w)
     {
+        this->one_triangle();
         if (!this->sparse)
         {
             if (!this->upper) box.template emplace<Spectra::DenseSymMatProd<S>>(&ctlA, Ad);
@@ -106,6 +113,7 @@ struct WorldHerm : WorldStd<S>
     std::unique_ptr<IKrylov> make_krylov() override { return std::unique_ptr<IKrylov>(new LanczosDriver<S, SimOp<S>, Spectra::IdentityBOp>(*box.op, Spectra::IdentityBOp(), (long) spec.ncv)); }
     explicit WorldHerm(const WorldSpec& w) : WorldStd<S>(w)
     {
+        this->one_triangle();
         if (!this->sparse)
         {
             if (!this->upper) box.template emplace<Spectra::DenseHermMatProd<S>>(&ctlA, Ad);
@@ -129,6 +137,7 @@ struct WorldSymShift : WorldStd<S>
     using WorldStd<S>::box; using WorldStd<S>::Ad; using WorldStd<S>::As; using WorldStd<S>::ctlA; using WorldStd<S>::spec;
     explicit WorldSymShift(const WorldSpec& w) : WorldStd<S>(w)
     {
+        this->one_triangle();
         if (!this->sparse)
         {
             if (!this->upper) box.template emplace<Spectra::DenseSymShiftSolve<S>>(&ctlA, Ad);
@@ -142,7 +151,7 @@ struct WorldSymShift : WorldStd<S>
     }
     std::unique_ptr<ISolver> make_solver() override
     {
-        return std::unique_ptr<ISolver>(new SolverAdaptor<Spectra::SymEigsShiftSolver<SimOp<S>>, S>(*box.op, (Eigen::Index) spec.nev, (Eigen::Index) spec.ncv, (S) spec.sigma));
+        return std::unique_ptr<ISolver>(new SolverAdaptor<Spectra::SymEigsShiftSolver<SimOp<S>>, S>(typename SolverAdaptor<Spectra::SymEigsShiftSolver<SimOp<S>>, S>::Shift1(), (S) spec.sigma, *box.op, (Eigen::Index) spec.nev, (Eigen::Index) spec.ncv));
     }
 };
 
@@ -178,7 +187,7 @@ struct WorldGenRShift : WorldStd<S>
     }
     std::unique_ptr<ISolver> make_solver() override
     {
-        return std::unique_ptr<ISolver>(new SolverAdaptor<Spectra::GenEigsRealShiftSolver<SimOp<S>>, S>(*box.op, (Eigen::Index) spec.nev, (Eigen::Index) spec.ncv, (S) spec.sigma));
+        return std::unique_ptr<ISolver>(new SolverAdaptor<Spectra::GenEigsRealShiftSolver<SimOp<S>>, S>(typename SolverAdaptor<Spectra::GenEigsRealShiftSolver<SimOp<S>>, S>::Shift1(), (S) spec.sigma, *box.op, (Eigen::Index) spec.nev, (Eigen::Index) spec.ncv));
     }
 };
 
@@ -193,7 +202,7 @@ struct WorldGenCShift : WorldStd<S>
     }
     std::unique_ptr<ISolver> make_solver() override
     {
-        return std::unique_ptr<ISolver>(new SolverAdaptor<Spectra::GenEigsComplexShiftSolver<SimOp<S>>, S>(*box.op, (Eigen::Index) spec.nev, (Eigen::Index) spec.ncv, (S) spec.sigma, (S) spec.sigmai));
+        return std::unique_ptr<ISolver>(new SolverAdaptor<Spectra::GenEigsComplexShiftSolver<SimOp<S>>, S>(typename SolverAdaptor<Spectra::GenEigsComplexShiftSolver<SimOp<S>>, S>::Shift2(), (S) spec.sigma, (S) spec.sigmai, *box.op, (Eigen::Index) spec.nev, (Eigen::Index) spec.ncv));
     }
 };
 
